@@ -16,12 +16,12 @@ import (
 )
 
 type p7Seed struct {
-	name  string
-	blob  []byte
-	right *x509.Certificate   // the signer's certificate
-	twin  *x509.Certificate   // same issuer and serial, another key
-	other *x509.Certificate   // unrelated
-	canVerify bool            // carries signed attributes and `right` is really the signer
+	name      string
+	blob      []byte
+	right     *x509.Certificate // the signer's certificate
+	twin      *x509.Certificate // same issuer and serial, another key
+	other     *x509.Certificate // unrelated
+	canVerify bool              // carries signed attributes and `right` is really the signer
 }
 
 func goP7Class(blob []byte, cert *x509.Certificate) string {
@@ -145,7 +145,7 @@ func p7Seeds(c *Ctx, withOpenssl bool) []p7Seed {
 	var seeds []p7Seed
 	k0, k1 := poolKey(c, 2048, 0), poolKey(c, 2048, 1)
 	shapes := certShapes(c)
-	for i, sh := range []certShape{shapes[0], shapes[2], shapes[3], shapes[9]} {
+	for i, sh := range []certShape{shapes[0], shapes[2], shapes[3], shapes[9], shapes[11], shapes[13]} {
 		right, twin, other := makeRSACert(k0, sh), makeRSACert(k1, sh), makeRSACert(k1, shapes[(i+5)%len(shapes)])
 		if b, err := pkcs7.SignPKCS7(k0, right, pkcs7.OIDData, []byte("detached content")); err == nil {
 			seeds = append(seeds, p7Seed{"lib/data/" + sh.desc, b, right, twin, other, true})
@@ -564,6 +564,16 @@ func c04Gen(c *Ctx) {
 				kind string
 				c    *x509.Certificate
 			}{"other", s.other})
+			// same issuer and serial, but a key that is not an RSA key at all
+			if s.right != nil && (class == "seed" || strings.HasPrefix(class, "forge") || strings.HasPrefix(class, "two-signers")) {
+				certs = append(certs, struct {
+					kind string
+					c    *x509.Certificate
+				}{"twin-ed25519", nonRSATwin(s.right, "ed25519")}, struct {
+					kind string
+					c    *x509.Certificate
+				}{"twin-ecdsa", nonRSATwin(s.right, "ecdsa")})
+			}
 		}
 		for _, kc := range certs {
 			if kc.c == nil {
@@ -587,7 +597,7 @@ func c04Gen(c *Ctx) {
 
 func init() {
 	register("C04", &PropDef{
-		Rule:   "seeds: library-signed data (detached) and SpcIndirectDataContent blobs under four certificate shapes (one of them CA-issued, issuer different from subject), the sbsign/sbvarsign fixtures of the repository, OpenSSL smime/cms blobs when the CLI is present, OpenSSL-shaped CMS blobs built in the harness; each verified under the signer's certificate, a twin certificate (same issuer and serial, another key) and an unrelated one. Derived blobs: single-bit/byte changes (quick: 40 stratified positions; thorough: every position of blobs <= 2 KiB), a bit flip inside every DER leaf (signature, digest, integers, OIDs), delete/duplicate/swap of the children of every constructed node, truncations, and targeted forgeries (content, content type, certificates, signer identity, message digest, dropped signed attributes, every object identifier outside the certificates replaced by each of seven sibling OIDs alone and together with a content change, and six two-signer-entry combinations of {names the certificate, names another} x {valid, damaged signature}). Every case is non-trivial; distinct = distinct (blob, certificate).",
+		Rule:   "seeds: library-signed data (detached) and SpcIndirectDataContent blobs under six certificate shapes (one CA-issued with issuer different from subject, one whose own signature is sha384WithRSA, one with a hand-encoded UTF8String/emailAddress name), the sbsign/sbvarsign fixtures of the repository, OpenSSL smime/cms blobs when the CLI is present, OpenSSL-shaped CMS blobs built in the harness; each verified under the signer's certificate, a twin certificate (same issuer and serial, another RSA key), Ed25519 and ECDSA twins (same issuer and serial, no RSA key at all) and an unrelated one. Derived blobs: single-bit/byte changes (quick: 40 stratified positions; thorough: every position of blobs <= 2 KiB), a bit flip inside every DER leaf (signature, digest, integers, OIDs), delete/duplicate/swap of the children of every constructed node, truncations, and targeted forgeries (content, content type, certificates, signer identity, message digest, dropped signed attributes, every object identifier outside the certificates replaced by each of seven sibling OIDs alone and together with a content change, and six two-signer-entry combinations of {names the certificate, names another} x {valid, damaged signature}). Every case is non-trivial; distinct = distinct (blob, certificate).",
 		Assume: []string{"x509.ParseCertificates and Certificate.CheckSignature are opaque Go library code; RSA/SHA-256 on the model side are the executable Lean implementations, compared with Go's verdict on every case"},
 		Eval:   c04Eval, Gen: c04Gen,
 	})
